@@ -45,6 +45,13 @@ func (fv *FnV) callUser(st *State, call *ast.CallExpr, key string, o *types.Func
 	sig := o.Type().(*types.Signature)
 	osig := o.Origin().Type().(*types.Signature)
 	fc := fv.prog.C.ByKey[key]
+	// a variant V of the caller is checked against the callee's variant of the same name when there is
+	// one (that variant is itself under proof); otherwise against the callee's default contract
+	if fv.fc != nil && fv.fc.Variant != "" && len(fv.frames) == 1 {
+		if vc := fv.prog.C.ByKey[key+"~"+fv.fc.Variant]; vc != nil {
+			fc = vc
+		}
+	}
 
 	// type arguments of generic callees
 	var subst map[*types.TypeParam]types.Type
@@ -371,7 +378,7 @@ func (fv *FnV) contractCall(st *State, call *ast.CallExpr, key string, fd *ast.F
 	}
 	short := key
 	if fc != nil {
-		fv.calledContracts[key] = true
+		fv.calledContracts[fc.Key()] = true
 		for i, cl := range fc.Requires {
 			g := fv.evalWithEnv(st, cl, pre, pre, st)
 			lab := cl.Label
